@@ -69,7 +69,12 @@ class Check(object):
         wall = time.time() - self.t0
         known_keys = {k["key"]: k for k in self.known}
         n_ref_new = 0
-        replay_dir = os.path.join(VERIF, "evidence", "replay")
+        # evidence describes /repo; runs against a scratch copy (VOLUTE_REPO, used by the seed / refactor self tests)
+        # write theirs elsewhere so that the committed evidence never comes from a snapshot
+        ev_dir = os.path.join(VERIF, "evidence")
+        if os.path.realpath(os.environ.get("VOLUTE_REPO", "/repo")) != "/repo":
+            ev_dir = os.path.join(VERIF, ".cache", "scratch-evidence")
+        replay_dir = os.path.join(ev_dir, "replay")
         os.makedirs(replay_dir, exist_ok=True)
         seen_known = set()
         viol = []
@@ -123,8 +128,8 @@ class Check(object):
             wall_s=round(wall, 3),
             violations=n_ref_new,
         )
-        os.makedirs(os.path.join(VERIF, "evidence"), exist_ok=True)
-        with open(os.path.join(VERIF, "evidence", "%s.json" % self.pid), "w") as fh:
+        os.makedirs(ev_dir, exist_ok=True)
+        with open(os.path.join(ev_dir, "%s.json" % self.pid), "w") as fh:
             json.dump(ev, fh, indent=1, sort_keys=True, default=str)
         print("%s tier=%s obligations=%d proved=%d refuted=%d (known %d) undecided=%d wall=%.1fs" % (
             self.pid, self.tier, counts["obligations"], counts["discharged"], counts["refuted"], counts["known_findings"], counts["undecided"], wall))
